@@ -133,9 +133,9 @@ def cases(tier, seed):
     # |x(t)| of a complex polynomial is a real-analytic function of t away from x_0 = 0: sqrt(x(t) conj(x(t)))
     for D in ((1, 2, 3, 5) if tier == 'quick' else (1, 2, 3, 4, 6, 8)):
         for rep in range(3 if tier == 'quick' else 8):
-            for entry in range(4):
+            for entry in range(6):
                 out.append({'kind': 'abs_complex', 'seed': case_seed('C01', seed, 'abs_complex', D, rep, entry), 'params': {'D': D, 'entry': entry, 'P': 1 + rep % 3,
-                            'shape': [[], [3], [2, 2]][rep % 3]}})
+                            'shape': [[], [3], [2, 2]][rep % 3], 'scale': [1.0, 1.0, 1e200, 1e-200, 1e160, 3e-170][(rep + entry) % 6]}})
     return out + extreme_cases(tier, seed)
 
 
@@ -391,10 +391,12 @@ def _hyperu_poly(ctx, p, rng):
 def _abs_complex(ctx, p, rng):
     D, P, shape, entry = p['D'], p['P'], tuple(p['shape']), p['entry']
     data = gen.series_data(rng, D, P, shape, 'nz', 'random', True)      # |x0| >= 0.4: away from the kink at 0
+    data = data * p.get('scale', 1.0)          # huge and tiny magnitudes: |x_0|^2 is not representable, |x_0| is
     x = UTPM(data.copy())
-    ename = ['algopy.absolute', 'UTPM.absolute', 'abs()', 'fabs'][entry]
+    ename = ['algopy.absolute', 'UTPM.absolute', 'abs()', 'fabs', 'algopy.sign', 'x.sign()'][entry]
+    is_sign = entry >= 4
     try:
-        y = [lambda: algopy.absolute(x), lambda: UTPM.absolute(x), lambda: abs(x), lambda: x.fabs()][entry]()
+        y = [lambda: algopy.absolute(x), lambda: UTPM.absolute(x), lambda: abs(x), lambda: x.fabs(), lambda: algopy.sign(x), lambda: x.sign()][entry]()
     except Exception as e:
         ctx.violation('absolute:complex:raises', {'entry': ename, 'error': repr(e)[:200]}); return
     if not isinstance(y, UTPM) or y.data.shape != data.shape:
@@ -402,18 +404,29 @@ def _abs_complex(ctx, p, rng):
     worst = 0.0
     for pp in range(P):
         for idx in _elements(shape, rng, 3):
-            xs = [O.num(complex(v)) for v in data[(slice(None), pp) + idx]]
+            # the reference is computed for x / scale (|.| is homogeneous of degree 1, sign of degree 0): numerical differentiation of
+            # sqrt at 1e400 would need 400 digits
+            sc = mp.mpf(p.get('scale', 1.0))
+            xs = [O.num(complex(v)) / sc for v in data[(slice(None), pp) + idx]]
             sq = O.mul(xs, [mp.conj(v) for v in xs])
             sq = [mp.re(v) for v in sq]
             msq = O.mul([abs(v) for v in xs], [abs(v) for v in xs])
-            fk = O.taylor_coeffs(mp.sqrt, sq[0], D - 1)
-            ref = O.compose(fk, sq)
-            maj = O.compose([abs(v) for v in fk], [abs(sq[0])] + msq[1:])
+            if is_sign:
+                # numpy.sign(z) = z / |z| (NumPy 2): x(t) (x conj x)^(-1/2)
+                fk = O.taylor_coeffs(lambda z: 1 / mp.sqrt(z), sq[0], D - 1)
+                inv = O.compose(fk, sq); minv = O.compose([abs(v) for v in fk], [abs(sq[0])] + msq[1:])
+                ref = O.mul(xs, inv); maj = O.mul([abs(v) for v in xs], minv)
+            else:
+                fk = O.taylor_coeffs(mp.sqrt, sq[0], D - 1)
+                ref = O.compose(fk, sq)
+                maj = O.compose([abs(v) for v in fk], [abs(sq[0])] + msq[1:])
+            if not is_sign:
+                ref = [v * sc for v in ref]; maj = [v * sc for v in maj]
             got = y.data[(slice(None), pp) + idx]
             e = O.err_over_maj(list(got), ref, maj)
             worst = max(worst, e)
             if not e <= TAU:
-                ctx.violation('absolute:complex:coeff', {'entry': ename, 'D': D, 'P': P, 'shape': shape, 'err_over_majorant': e,
+                ctx.violation('%s:complex:coeff' % ('sign' if is_sign else 'absolute'), {'entry': ename, 'D': D, 'P': P, 'shape': shape, 'err_over_majorant': e, 'scale': p.get('scale', 1.0),
                                                          'x': [str(complex(v)) for v in data[(slice(None), pp) + idx]][:4],
                                                          'got': [str(complex(v)) for v in got][:4], 'want': [str(complex(v)) for v in ref][:4]}); return
     ctx.ok('absolute', ('abs_complex', D, P, shape, entry), noise=worst)
@@ -439,7 +452,26 @@ def _piecewise(ctx, p, rng):
             d2[0] = data[0] + rng.choice([-1.0, 1.0], size=data[0].shape) * rng.uniform(0.2, 1.0, size=data[0].shape)
             d2 *= [1.0, 1e17, 1e-17, 1e300][(p['entry'] // 2) % 4]          # operands of very different magnitude: the selected one comes back exactly
             z = UTPM(d2.copy())
-            y = getattr(algopy, name)(x, z)
+            form = int(rng.integers(6))
+            if form == 1:
+                # a constant second operand (maximum(x, 0.): |x_0| >= 0.4, no tie), also as the first operand
+                c = [0.0, 0, np.float64(0.1), -0.25][int(rng.integers(4))]
+                d2 = np.zeros_like(data); d2[0] = c
+                y = getattr(algopy, name)(x, c) if rng.random() < 0.5 else getattr(algopy, name)(c, x)
+            elif form == 2:
+                # a constant array: the base values of the other operand, higher coefficients zero
+                d2[1:] = 0
+                y = getattr(algopy, name)(x, d2[0, 0].copy()) if P == 1 or np.all(d2[0] == d2[0, :1]) else getattr(algopy, name)(x, z)
+                if not (P == 1 or np.all(d2[0] == d2[0, :1])):
+                    d2 = z.data.copy()
+            elif form == 3 and shape:
+                # operands of different but broadcastable shapes: a scalar polynomial against an array-valued one
+                zs = gen.series_data(rng, D, P, (), 'nz', 'random', False)
+                zs[0] = 0.05 * np.sign(zs[0])                       # |x_0| >= 0.4 > 0.05: no tie
+                d2 = np.broadcast_to(zs.reshape((D, P) + (1,) * len(shape)), data.shape).copy()
+                y = getattr(algopy, name)(x, UTPM(zs.copy())) if rng.random() < 0.5 else getattr(algopy, name)(UTPM(zs.copy()), x)
+            else:
+                y = getattr(algopy, name)(x, z)
             pick = (data[0] <= d2[0]) if name == 'minimum' else (data[0] >= d2[0])
             ref = np.where(pick, data, d2)
         else:
